@@ -21,3 +21,26 @@ func VerifC04UpdateFlags(ud pb.Update) (fast bool, panicked bool) {
 	ud = setFastApply(ud)
 	return ud.FastApply, false
 }
+
+// VerifC04Started is what a freshly launched raft peer believes about its
+// persistent state.
+type VerifC04Started struct {
+	Term, Vote, Commit    uint64
+	FirstIndex, LastIndex uint64
+	Terms                 []uint64 // terms of the entries FirstIndex..LastIndex
+}
+
+// VerifC04PeerState inspects a peer right after Launch.
+func VerifC04PeerState(p *Peer) VerifC04Started {
+	r := p.raft
+	s := VerifC04Started{Term: r.term, Vote: r.vote, Commit: r.log.committed,
+		FirstIndex: r.log.firstIndex(), LastIndex: r.log.lastIndex()}
+	for i := s.FirstIndex; i <= s.LastIndex && i > 0; i++ {
+		t, err := r.log.term(i)
+		if err != nil {
+			break
+		}
+		s.Terms = append(s.Terms, t)
+	}
+	return s
+}
